@@ -162,6 +162,22 @@ func cmdCheck(argv []string) int {
 			rs.genErrs = append(rs.genErrs, "contract block of "+c.Key+" produced no obligation")
 		}
 	}
+	// constant maps: decided on the SSA of the package (no solver involved)
+	for _, cm := range eng.ct.ConstMaps {
+		if *prop != "all" && !hasTag(cm.Tags, *prop) {
+			continue
+		}
+		if *fnFilter != "" && !strings.Contains(cm.PkgPath+".init", *fnFilter) {
+			continue
+		}
+		ok, why := eng.checkConstMap(cm)
+		q := "(assert false)\n(check-sat)\n"
+		if !ok {
+			q = "; " + why + "\n(check-sat)\n"
+		}
+		results = append(results, &OblResult{Func: strings.TrimPrefix(cm.PkgPath, modulePath+"/") + ".init", Name: "constmap[" + cm.Name + "]", Kind: "constmap", Tags: cm.Tags,
+			Src: cm.Src + map[bool]string{true: "", false: "  -- " + why}[ok], Where: fmt.Sprintf("%s:%d", cm.File, cm.Line), Expect: "unsat", Bytes: len(q), query: q})
+	}
 	// vacuity guard for the trusted axioms: the prelude as a whole must not be refutable
 	{
 		all := map[string]bool{}
